@@ -45,9 +45,12 @@ import Blots.Model.Format
           lambdas everywhere (reference: `expr_to_source`), `lamOk` only below those nodes
           (reference: `flat`, which prints the parameter list as the formatter does).
 
-   8. END TO END ON THE OPERATOR FRAGMENT (`Frag t`, `Lemmas/ExprPegLemmas.lean`: binary
-      operators, prefix `-` / `!`, postfix `!`, parentheses over non-reserved identifiers,
-      built-in names, `true false null`, integers 0 ≤ n < 10^15; unbounded depth).  For EVERY
+   8. END TO END ON THE FRAGMENT OF C10 (`Frag t`, `Lemmas/ExprPegLemmas.lean`: binary
+      operators, prefix `-` / `!`, postfix `!`, calls, index, field, list literals, lambdas,
+      conditionals, string literals without both kinds of quote, record literals, do-blocks
+      whose statements are expressions with a leftmost name other than `via` / `into` / `where`
+      — all without comments — over non-reserved identifiers, built-in names, `true false
+      null`, integers 0 ≤ n < 10^15; unbounded depth).  For EVERY
       width the text `format_expr` returns is a re-layout (`Relayout`) of the printed text, in
       at most one redundant pair of parentheses, and the character-level PEG model of the
       `expression` rule followed by the Pratt parser reads it back to the tree
@@ -57,9 +60,11 @@ import Blots.Model.Format
       layout combination the formatter can emit on the fragment is refused by the grammar.
       (`Lemmas/FormatFragment.lean`.)
 
-  NOT proved: the text-level round trip OUTSIDE the operator fragment — that the whole
-  formatted text of a tree with strings, lists, records, lambdas, conditionals, do-blocks,
-  calls, comments, lexed character by character by the PEG grammar, yields the tree.  That is
+  NOT proved: the text-level round trip OUTSIDE that fragment — that the whole formatted text
+  of a tree with comments, assignments, `output`, input references, general numbers, strings
+  with both kinds of quote, do-block statements that start with a word-operator name, lexed
+  character by character by the PEG grammar, yields the tree; nor the statement level (a whole
+  program).  That is
   tied to the real code by the correspondence harness (model output = Rust output on generated
   programs) and by the model-free reparse oracle of `harness/src/props/c07.rs` (format, parse
   again, compare trees).
@@ -398,7 +403,7 @@ theorem word_operator_name_breaks_layout_equivalence :
 
 /-! ### 8. END TO END on the fragment of C10 (`Frag`: operators, calls, index, field, list
     literals, lambdas, conditionals, string literals without both kinds of quote, record
-    literals): format, then read the TEXT back.
+    literals, do-blocks): format, then read the TEXT back.
 
     `canonF t` is `format_single_line t` as a concrete syntax tree: the printer's tree `canon t`
     except that, where `format_single_line` itself descends (lambda bodies, call arguments, list
@@ -433,7 +438,8 @@ theorem format_layout_tree (w indent : Nat) :
     (∀ args body, fmtCST w indent (.lambda args body) =
       if lambdaBodyNeedsParens body then
         .lambda (headF args) [.sp] [.sp] (.paren [] (fmtCST w indent body) [])
-      else if lamFits w indent args body then .lambda (headF args) [.sp] [.sp] (fmtCST w indent body)
+      else if isDoBlock body || lamFits w indent args body then
+        .lambda (headF args) [.sp] [.sp] (fmtCST w indent body)
       else .lambda (headF args) [.sp] (.lf :: List.replicate (indent + 2) .sp)
         (fmtCST w (indent + 2) body)) ∧
     (∀ op e, fits w indent (.un op e) = false → fmtCST w indent (.un op e) =
@@ -461,6 +467,7 @@ theorem format_layout_tree (w indent : Nat) :
     cases t <;> first
       | (simp [Frag, frag, fragB] at h; done)
       | (simp [isLambda] at hl; done)
+      | (rw [fits_doBlock] at hf; cases hf)
       | (unfold fmtCST; rw [if_pos hf])
       | (unfold fmtCST canonF; rfl)
   · intro op l r hf hc; rw [fmtCST, hf, hc]; rfl
@@ -533,6 +540,25 @@ theorem format_record_layout (w indent inner : Nat) (e : Ent) (es : List Ent) :
   ⟨rfl, rfl, rfl, fun _ _ => rfl, fun _ _ => by simp [fmtEntCST, entPlain],
     fun _ _ => rfl, fun _ _ => by simp [fmtEntCST, entPlain],
     fun _ => by simp [fmtEntCST, entPlain, isNullE], fun _ => by simp [fmtEntCST, entPlain, isNullE]⟩
+
+/-- the do-block: ALWAYS on several lines (its single-line form never "fits": it contains line
+    breaks).  `do {`, every statement on its own line at `indent + 2` — in parentheses when its
+    formatted text starts with `-` (`protC`, the structural reading of `protect_statement_start`
+    on fragment statements, `protC_text`) —, `return e` at `indent + 2`, `}` at `indent`.  Every
+    statement separator is a line break, never `;`.  A lambda whose body is a do-block keeps
+    `=> do {` on the line of its head (clause 4 of `format_layout_tree`). -/
+theorem format_do_block_layout (w indent : Nat) (ss : List Item) (lead : List String) (e : Expr)
+    (tr : Option String) :
+    fits w indent (.doBlock ss (.mk lead e tr)) = false ∧
+    fmtCST w indent (.doBlock ss (.mk lead e tr)) =
+      .doB [.sp] (.lf :: List.replicate (indent + 2) .sp) (fmtStmtsCST w indent ss) [.sp]
+        (fmtCST w (indent + 2) e) (.lf :: List.replicate indent .sp) ∧
+    fmtStmtsCST w indent [] = .nil ∧
+    (∀ l s t rest, fmtStmtsCST w indent (.mk l s t :: rest) =
+      .cons (protC (fmtCST w (indent + 2) s)) (.line (.lf :: List.replicate (indent + 2) .sp))
+        (fmtStmtsCST w indent rest)) ∧
+    (∀ c : CST, protC c = if c.startsMinus then .paren [] c [] else c) :=
+  ⟨fits_doBlock w indent ss _, by rw [fmtCST]; rfl, rfl, fun _ _ _ _ => rfl, fun _ => rfl⟩
 
 /-- the same on strings: where the single-line form fits the output is `expr_to_source`;
     where it does not, the operator of a binary node starts a new line two columns deeper and
@@ -915,6 +941,35 @@ example : reads (formatExpr x9 (some 1)) = some "{a: a + b, \"k 2\": (y) => y, [
     `both_quotes_string_reads_back_as_concatenation`) -/
 example : ¬ Frag (.str "a\"b'c") ∧ formatExpr (.str "a\"b'c") (some 80) = "(\"a\" + '\"' + \"b'c\")" ∧
     reads (formatExpr (.str "a\"b'c") (some 80)) = some "\"a\" + '\"' + \"b'c\"" := by decide +kernel
+
+/-- do-blocks: always on several lines; a statement that starts with `-` in parentheses; a lambda
+    keeps `=> do {` on the line of its head, the block's lines are indented from the lambda's
+    indent; a block nested in a call argument -/
+private abbrev stm (e : Expr) : Item := .mk [] e none
+private abbrev x10 : Expr :=
+  .call ig [.lambda [.req "x"] (.doBlock
+    [stm (.call ig [.ident "x", ia]), stm (.un .negate (.bin .add (.ident "x") ib))]
+    (stm (.doBlock [] (stm (.bin .mul (.ident "x") ib)))))]
+example : Frag x10 := by decide +kernel
+example : formatExpr x10 (some 80) =
+      "g(\n  x => do {\n    g(x, a)\n    (-(x + b))\n    return do {\n      return x * b\n    }\n  },\n)" ∧
+    formatExpr x10 (some 10) =
+      "g(\n  x => do {\n    g(\n      x,\n      a,\n    )\n    (-(x + b))\n    return do {\n      return x\n        * b\n    }\n  },\n)" := by
+  decide +kernel
+example : parseText (formatExpr x10 (some 1)) = some x10 ∧
+    parseText (formatExpr x10 (some 10)) = some x10 ∧ parseText (formatExpr x10 (some 80)) = some x10 :=
+  ⟨format_text_roundtrip x10 (by decide +kernel) 1, format_text_roundtrip x10 (by decide +kernel) 10,
+    format_text_roundtrip x10 (by decide +kernel) 80⟩
+example : reads (formatExpr x10 (some 10)) =
+    some "g((x) => do {\n  g(x, a)\n  (-(x + b))\n  return do {\n  return x * b\n}\n})" := by
+  decide +kernel
+/-- outside the fragment: a statement whose leftmost name is a word operator — parenthesised on
+    one line, not when the operator moves to the next line (section 7) -/
+example : ¬ Frag (.doBlock [stm (.bin .add (.ident "via") ib)] (stm ia)) ∧
+    formatExpr (.doBlock [stm (.bin .add (.ident "via") ib)] (stm ia)) (some 80) =
+      "do {\n  (via + b)\n  return a\n}" ∧
+    formatExpr (.doBlock [stm (.bin .add (.ident "via") ib)] (stm ia)) (some 3) =
+      "do {\n  via\n    + b\n  return a\n}" := by decide +kernel
 end text_examples
 
 end Blots.C07
